@@ -5,12 +5,11 @@ From GocqlV Require Import Lib.Base C16.ZMap C16.Model C16.Spec C16.Proofs1 C16.
 
 Record sess_inv (s : sess) : Prop := mk_sess_inv {
   si_ring : ring_inv (s_ring s);
-  si_inj : addr_inj (s_ring s);
   si_pool : forall id, In id (s_pool s) -> knows (s_ring s) id
 }.
 
 Lemma sess_inv_empty : sess_inv empty_sess.
-Proof. constructor; [apply ring_inv_empty | apply addr_inj_empty | intros id []]. Qed.
+Proof. constructor; [apply ring_inv_empty | intros id []]. Qed.
 
 Lemma sess_inv_lookups s : sess_inv s -> lookups_consistent (s_ring s).
 Proof. intros H. apply ring_inv_lookups. apply (si_ring _ H). Qed.
@@ -21,9 +20,8 @@ Lemma sess_inv_set s id e e' pool log rf :
   (forall x, In x pool -> In x (s_pool s)) ->
   sess_inv (mkSess (mkRing (mset id e' (hosts (s_ring s))) (ip2id (s_ring s)) (hlist (s_ring s))) pool log rf).
 Proof.
-  intros [Hr Hi Hp] He Hid Hk Hsub. constructor; simpl.
+  intros [Hr Hp] He Hid Hk Hsub. constructor; simpl.
   - apply update_in_place_inv with (e := e); assumption.
-  - eapply addr_inj_update; eauto.
   - intros x Hx. unfold knows, get_host. simpl. rewrite mget_mset. destruct (x =? id); [discriminate|].
     apply Hp. apply Hsub. exact Hx.
 Qed.
@@ -51,7 +49,7 @@ Proof.
   - destruct H as [Hh Hk]. destruct (negb (accept c h)).
     + exists s. auto.
     + exists (start_pool_fill s h). split; [reflexivity|]. split; [|reflexivity].
-      destruct Hinv as [Hr Hi Hp]. constructor; simpl; auto.
+      destruct Hinv as [Hr Hp]. constructor; simpl; auto.
       intros id. rewrite In_pool_add. intros [Hid| ->]; [apply Hp; exact Hid|]. unfold knows, get_host. congruence.
   - exists (request_refresh s). split; [reflexivity|]. split; [|reflexivity]. destruct Hinv. constructor; auto.
   - exists (request_refresh s). split; [reflexivity|]. split; [|reflexivity]. destruct Hinv. constructor; auto.
@@ -93,61 +91,46 @@ Proof.
 Qed.
 
 (* ---------------------------------------------------------------- addOrUpdate from Session.init / setupConn *)
-(* the host can be connected to; a new id comes with an address no ring host has; a known id keeps its address *)
-Definition add_ok (r : ring) (h : hostinfo) : Prop :=
-  invalid_connect_addr h = false /\
-  match mget (h_id h) (hosts r) with
-  | Some e => n2n_key (update e h) = n2n_key e
-  | None => forall id x, mget id (hosts r) = Some x -> n2n_key x <> n2n_key h
-  end.
-
-Lemma add_or_update_ok r h : ring_inv r -> addr_inj r -> add_ok r h ->
-  exists r' e, add_or_update r h = Some (r', e) /\ ring_inv r' /\ addr_inj r'
+Lemma add_or_update_ok r h : ring_inv r -> invalid_connect_addr h = false ->
+  exists r' e, add_or_update r h = Some (r', e) /\ ring_inv r'
                /\ (forall id, knows r id -> knows r' id) /\ knows r' (h_id e) .
 Proof.
-  intros Hinv Hinj [Hv Hok]. unfold add_or_update.
-  destruct (mget (h_id h) (hosts r)) as [e|] eqn:E.
-  - rewrite (add_if_missing_old _ _ _ Hv E). eexists. eexists. split; [reflexivity|].
-    assert (Hid : h_id (update e h) = h_id h).
-    { rewrite update_id; [apply (inv_id _ Hinv _ _ E)|]. rewrite (inv_id _ Hinv _ _ E). reflexivity. }
-    split; [apply update_in_place_inv with (e := e); auto|].
-    split; [eapply addr_inj_update; eauto|]. unfold knows, get_host. cbn [hosts]. split.
-    + intros id. rewrite mget_mset. destruct (id =? h_id h); [discriminate | auto].
-    + rewrite Hid, mget_mset_same. discriminate.
-  - rewrite (add_if_missing_new _ _ Hv E). eexists. eexists. split; [reflexivity|].
-    pose proof (add_if_missing_new _ _ Hv E) as Hadd.
-    split; [eapply add_if_missing_inv; eauto|]. split; [eapply addr_inj_add; eauto|].
-    unfold knows, get_host. simpl. split.
-    + intros id. rewrite mget_mset. destruct (id =? h_id h); [discriminate | auto].
-    + rewrite mget_mset_same. discriminate.
+  intros Hinv Hv.
+  destruct (add_or_update r h) as [[r' e]|] eqn:Hau.
+  - exists r', e. split; [reflexivity|]. split; [eapply add_or_update_inv; eauto|].
+    unfold add_or_update in Hau. destruct (mget (h_id h) (hosts r)) as [e0|] eqn:E.
+    + rewrite (add_if_missing_old _ _ _ Hv E) in Hau. injection Hau as <- <-.
+      assert (Hid : h_id (update e0 h) = h_id h).
+      { rewrite update_id; [apply (inv_id _ Hinv _ _ E)|]. rewrite (inv_id _ Hinv _ _ E). reflexivity. }
+      unfold knows, get_host. cbn [hosts]. split.
+      * intros id. rewrite mget_mset. destruct (id =? h_id h); [discriminate | auto].
+      * rewrite Hid, mget_mset_same. discriminate.
+    + rewrite (add_if_missing_new _ _ Hv E) in Hau. injection Hau as <- <-.
+      unfold knows, get_host. cbn [hosts]. split.
+      * intros id. rewrite mget_mset. destruct (id =? h_id h); [discriminate | auto].
+      * rewrite mget_mset_same. discriminate.
+  - exfalso. unfold add_or_update in Hau. destruct (mget (h_id h) (hosts r)) as [e0|] eqn:E.
+    + rewrite (add_if_missing_old _ _ _ Hv E) in Hau. discriminate.
+    + rewrite (add_if_missing_new _ _ Hv E) in Hau. discriminate.
 Qed.
 
-Fixpoint init_ok (c : cfg) (s : sess) (hs : list hostinfo) : Prop :=
-  match hs with
-  | [] => True
-  | h :: tl =>
-      add_ok (s_ring s) h /\
-      match add_or_update (s_ring s) h with
-      | Some (r', e) => init_ok c (let s1 := with_ring s r' in if accept c e then start_pool_fill s1 e else s1) tl
-      | None => True
-      end
-  end.
+Definition hosts_valid (hs : list hostinfo) : Prop := forall h, In h hs -> invalid_connect_addr h = false.
 
-Lemma init_hosts_ok c : forall hs s, sess_inv s -> init_ok c s hs -> exists s', init_hosts c s hs = Some s' /\ sess_inv s'.
+Lemma init_hosts_ok c : forall hs s, sess_inv s -> hosts_valid hs -> exists s', init_hosts c s hs = Some s' /\ sess_inv s'.
 Proof.
   induction hs as [|h tl IH]; intros s Hinv Hok; simpl; [exists s; auto|].
-  destruct Hok as [Hadd Htl]. destruct Hinv as [Hr Hi Hp].
-  destruct (add_or_update_ok _ _ Hr Hi Hadd) as [r' [e [Hau [Hr' [Hi' [Hk Hke]]]]]]. rewrite Hau in *.
-  apply IH; [|exact Htl]. destruct (accept c e); constructor; simpl; auto.
+  destruct Hinv as [Hr Hp].
+  destruct (add_or_update_ok _ _ Hr (Hok h (or_introl eq_refl))) as [r' [e [Hau [Hr' [Hk Hke]]]]]. rewrite Hau.
+  apply IH; [|intros x Hx; apply Hok; right; exact Hx]. destruct (accept c e); constructor; simpl; auto.
   intros id. rewrite In_pool_add. intros [Hid| ->]; auto.
 Qed.
 
 (* ---------------------------------------------------------------- histories *)
 Definition label_ok (c : cfg) (s : sess) (l : label) : Prop :=
   match l with
-  | LInit hs => init_ok c s hs
-  | LControl h => add_ok (s_ring s) h
-  | LRefresh report => report_ok c (s_ring s) report
+  | LInit hs => hosts_valid hs
+  | LControl h => invalid_connect_addr h = false
+  | LRefresh report => report_ok c report
   | LRefreshFail | LEvents _ | LConnected _ => True
   end.
 
@@ -158,16 +141,16 @@ Fixpoint history_ok (c : cfg) (s : sess) (ls : list label) : Prop :=
   end.
 
 Lemma refresh_started_inv s : sess_inv s -> sess_inv (refresh_started s).
-Proof. intros [A B C]. constructor; auto. Qed.
+Proof. intros [A B]. constructor; auto. Qed.
 
 Lemma step_ok c s l : sess_inv s -> label_ok c s l -> exists s', step c s l = Some s' /\ sess_inv s'.
 Proof.
   intros Hinv Hok. destruct l as [hs|h|report| |evs|id]; simpl in *.
   - apply init_hosts_ok; assumption.
-  - destruct Hinv as [Hr Hi Hp]. destruct (add_or_update_ok _ _ Hr Hi Hok) as [r' [e [Hau [Hr' [Hi' [Hk _]]]]]].
+  - destruct Hinv as [Hr Hp]. destruct (add_or_update_ok _ _ Hr Hok) as [r' [e [Hau [Hr' [Hk _]]]]].
     rewrite Hau. eexists. split; [reflexivity|]. constructor; simpl; auto.
-  - pose proof (refresh_started_inv s Hinv) as [Hr Hi Hp].
-    destruct (refresh_correct c (refresh_started s) report Hr Hi Hp Hok) as [s' [Hs' Hpost]].
+  - pose proof (refresh_started_inv s Hinv) as [Hr Hp].
+    destruct (refresh_correct c (refresh_started s) report Hr Hp Hok) as [s' [Hs' Hpost]].
     rewrite Hs'. exists s'. split; [reflexivity|]. destruct Hpost. constructor; auto.
   - eexists. split; [reflexivity|]. apply refresh_started_inv. exact Hinv.
   - apply handle_node_events_ok. exact Hinv.
